@@ -549,7 +549,7 @@ def _parse_read_reply(tag, data) -> Tag:
 
 
 def parse_tag(tag: str) -> Optional[dict]:
-    t = CT_RE.search(tag)
+    t = CT_RE.fullmatch(tag)
     if (
         t
         and (1 <= int(t.group("file_number")) <= 255)
@@ -565,7 +565,7 @@ def parse_tag(tag: str) -> Optional[dict]:
             "tag": t.group(0),
         }
 
-    t = LFBN_RE.search(tag)
+    t = LFBN_RE.fullmatch(tag)
     if t:
         _cnt = t.group("_elem_cnt_token")
         tag_name = t.group(0).replace(_cnt, "") if _cnt else t.group(0)
@@ -601,7 +601,7 @@ def parse_tag(tag: str) -> Optional[dict]:
                     "tag": tag_name,
                 }
 
-    t = IO_RE.search(tag)
+    t = IO_RE.fullmatch(tag)
     if t:
         _cnt = t.group("_elem_cnt_token")
         tag_name = t.group(0).replace(_cnt, "") if _cnt else t.group(0)
@@ -638,7 +638,7 @@ def parse_tag(tag: str) -> Optional[dict]:
                     "tag": tag_name,
                 }
 
-    t = ST_RE.search(tag)
+    t = ST_RE.fullmatch(tag)
     if (
         t
         and (1 <= int(t.group("file_number")) <= 255)
@@ -657,7 +657,7 @@ def parse_tag(tag: str) -> Optional[dict]:
             "tag": tag_name,
         }
 
-    t = A_RE.search(tag)
+    t = A_RE.fullmatch(tag)
     if (
         t
         and (1 <= int(t.group("file_number")) <= 255)
@@ -676,7 +676,7 @@ def parse_tag(tag: str) -> Optional[dict]:
             "tag": tag_name,
         }
 
-    t = S_RE.search(tag)
+    t = S_RE.fullmatch(tag)
     if t:
         _cnt = t.group("_elem_cnt_token")
         tag_name = t.group(0).replace(_cnt, "") if _cnt else t.group(0)
@@ -705,7 +705,7 @@ def parse_tag(tag: str) -> Optional[dict]:
                     "tag": tag_name,
                 }
 
-    t = B_RE.search(tag)
+    t = B_RE.fullmatch(tag)
     if (
         t
         and (1 <= int(t.group("file_number")) <= 255)
